@@ -62,6 +62,30 @@ def rset(m):
     return sorted([x[0], x[2], x[3], x[4]] for x in m)
 
 
+def matches(model_mirror, real):
+    """Does the real Adj-RIB-In (rset form) agree with the model's mirror?  Path ids are compared modulo renaming.  Under the
+    listed deviation (export map keyed by a re-used destination id) the as-implemented model can hold two pending
+    announcements for the same (prefix, path id); only one of them survives at the neighbour and which one is decided by the
+    order of the attribute groups on the wire, which the model does not fix: such a slot accepts either content."""
+    groups = {}
+    for x in model_mirror:
+        groups.setdefault((x["p"], x["pid"]), []).append([x["src"], x["cls"], x["ll"]])
+    slots = [(k[0], v) for k, v in sorted(groups.items())]
+    if len(slots) != len(real):
+        return False
+    if all(len(v) == 1 for _, v in slots):
+        return sorted([p] + v[0] for p, v in slots) == real
+
+    def place(i, used):
+        if i == len(real):
+            return True
+        for si, (p, v) in enumerate(slots):
+            if si not in used and p == real[i][0] and real[i][1:] in v and place(i + 1, used | {si}):
+                return True
+        return False
+    return place(0, frozenset())
+
+
 def run_harness(tag, seqs):
     """seqs: list of (sid, sendmax, [op lines]); returns {(sid, step): record}"""
     inp = os.path.join(vf.WORK, f"C01.{tag}.in")
@@ -182,7 +206,7 @@ def main(c):
             if j["note"]:
                 bad = ("export.harness", {"step": i, "op": stp["op"], "note": j["note"]})
                 break
-            if real != mset(stp["mirror"]):
+            if not matches(stp["mirror"], real):
                 bad = ("export.mirror", {"step": i, "op": stp["op"], "expected": mset(stp["mirror"]), "actual": real,
                                          "why": "the neighbour's Adj-RIB-In after this step differs from the model's"})
                 break
@@ -195,12 +219,12 @@ def main(c):
             steps += 2
             if not jq["state"]["pend_empty"]:
                 bad = ("export.pending", {"why": "updates still pending after a flush"})
-            elif fresh != mset(w[-1]["fresh"]):
+            elif not matches(w[-1]["fresh"], fresh):
                 bad = ("export.fresh", {"expected": mset(w[-1]["fresh"]), "actual": fresh,
                                         "why": "a brand-new session is sent something else than export(Loc-RIB)"})
             elif quiesced != fresh:
                 model_diverges = mset(w[-1]["qmirror"]) != mset(w[-1]["fresh"])
-                if model_diverges and quiesced == mset(w[-1]["qmirror"]) and devs:
+                if model_diverges and matches(w[-1]["qmirror"], quiesced) and devs:
                     known_hits += 1      # the listed finding, reproduced by a random behaviour (already reported)
                 else:
                     bad = ("export.converge", {"drained_session": quiesced, "brand_new_session": fresh,
